@@ -11,6 +11,8 @@ set of ppc parts re-derived from the tables by the recycled power flow.
   * _recycled_powerflow: for every flag that is set, every ppc part of that flag is re-derived: bus_pq -> _calc_pq_elements_and_add_on_ppc;
     gen -> _build_gen_ppc; 'trafo' -> the parameter function of *every* branch table in the flag's domain that exists in the branch lookup
     (trafo, trafo3w, line), independently of which other tables exist; the solver is run on the re-derived ppc.
+
+Added later: _evaluate_net discards net._ppc when the run function raises, before the repair run and before returning (run_evaluate_net).
 """
 from __future__ import annotations
 
